@@ -277,6 +277,10 @@ fn json_coq(v: &serde_json::Value, addr: &HashMap<u64, usize>) -> String {
 }
 
 pub fn make_case(input: &Input) -> Result<Case, String> {
+    crate::common::note_input("C14", &match input {
+        Input::Api { nodes, ops } => json!({"kind": "api", "nodes": nodes, "ops": ops.iter().map(|o| o.json()).collect::<Vec<_>>()}),
+        Input::Dsl { dsl, lazy } => json!({"kind": "dsl", "dsl": dsl, "lazy": lazy}),
+    });
     let tree = parse_python(SRC);
     let info = TreeInfo::new(&tree, SRC);
     let graph = build(input, &tree, &info)?;
